@@ -342,6 +342,86 @@ pub fn one_value(t: &mut Tctx, gb: &mut GuardBuf, algos: &[CrcAlgo], shape: &Sha
     }
 }
 
+
+/// Lean interpreter workload (Miri): monitored serialisations into exact-size heap buffers only.
+fn lean(t: &mut Tctx) {
+    let algos = crc_algos();
+    let mut n = [0u64; 4];
+    let mut vals = 0u64;
+    while !t.cfg.expired() && vals < t.cfg.knob_u64("lean_values", 200) {
+        vals += 1;
+        let (shape, val) = if vals % 2 == 0 {
+            let len = t.rng.range(0, 14);
+            value_of_len(&mut t.rng, len)
+        } else {
+            let d = t.rng.range(0, 2) as u32;
+            let shape = gen_shape(&mut t.rng, d, &ShapeOpts::small());
+            let val = {
+                let mut g = ValGen::small(&mut t.rng);
+                g.max_len = 2;
+                g.max_str = 6;
+                g.gen(&shape)
+            };
+            (shape, val)
+        };
+        let plain = spec::encode(&val);
+        if plain.len() > 24 {
+            continue;
+        }
+        let fs = [Framing::Plain, Framing::Cobs, Framing::Crc(4), Framing::Crc(9), Framing::Crc(0), Framing::CrcInCobs(4)];
+        let f = fs[(vals % 6) as usize];
+        let want = ref_frame(f, &algos, &plain);
+        let l = want.len();
+        for c in 0..=l + 2 {
+            if t.cfg.expired() {
+                break;
+            }
+            let mut buf: Box<[u8]> = vec![FILL; c].into_boxed_slice();
+            let base = buf.as_ptr() as usize;
+            let r = catch(|| to_slice_framed(f, &algos, &val, &mut buf));
+            n[0] += 1;
+            let ok = match r {
+                Err(_) => false,
+                Ok(Ok((p, len))) => {
+                    n[1] += 1;
+                    c >= l && p == base && len == l && buf[..l] == want[..] && buf[l..].iter().all(|b| *b == FILL)
+                }
+                Ok(Err(e)) => {
+                    n[2] += 1;
+                    c < l && e == postcard::Error::SerializeBufferFull
+                }
+            };
+            if !ok {
+                t.st.violation(
+                    "C05:lean-mismatch",
+                    format!("{} into an exact {}-byte heap buffer misbehaved (output length {})", f.label(&algos), c, l),
+                    rp(&shape, &plain, &f.label(&algos), c, "slice-exact-heap"),
+                );
+                return;
+            }
+        }
+        // heapless at two capacities around the output length
+        if let Ok(Some(r)) = catch(|| to_hvec_framed::<8>(f, &algos, &val)) {
+            n[3] += 1;
+            let ok = match r {
+                Ok(b) => l <= 8 && b == want,
+                Err(e) => l > 8 && e == postcard::Error::SerializeBufferFull,
+            };
+            if !ok {
+                t.st.violation("C05:lean-mismatch", format!("{} into heapless::Vec<8> misbehaved (output length {})", f.label(&algos), l), rp(&shape, &plain, &f.label(&algos), 8, "heapless"));
+                return;
+            }
+        }
+    }
+    t.st.evaluations += n[0] + n[3];
+    t.st.distinct_enumerated += n[0];
+    t.st.add("interpreted_slice_serialisations", n[0]);
+    t.st.add("slice_success", n[1]);
+    t.st.add("slice_buffer_full", n[2]);
+    t.st.add("interpreted_heapless_serialisations", n[3]);
+    t.st.add("values", vals);
+}
+
 pub fn run(cfg: &Cfg) -> Report {
     let mut rep = Report::new("C05");
     let algos = crc_algos();
@@ -354,6 +434,12 @@ pub fn run(cfg: &Cfg) -> Report {
     if let Some(p) = &cfg.replay {
         rep.stats.merge(replay(cfg, p));
         rep.rule = "replay".into();
+        return rep;
+    }
+    if cfg.tier == Tier::Tiny {
+        let s = parallel(cfg, 1, |t| lean(t));
+        rep.stats.merge(s);
+        rep.rule = "lean interpreter workload: monitored serialisations into exact-size heap buffers".into();
         return rep;
     }
     let s = parallel(cfg, 1, |t| {
